@@ -25,6 +25,32 @@ def tiny_stream(cfg):
     return any(0 < s["max_age"] < 10**7 for s in ss)
 
 
+def min_stream_ns(cfg):
+    """the shortest summary stream duration (max_age / age_buckets) this configuration asks for, read as the loader reads it: a rule
+    whose observer type is known at load (its own or the defaults') has unset fields filled from the defaults, any other rule's
+    block is taken whole; client defaults 10 min / 5 buckets.  In process a scrape costs (elapsed / duration) rotations: only
+    durations of a few nanoseconds can make the harness wait for seconds (the known finding); longer ones cannot."""
+    if cfg == "unparsable":
+        return 10**12
+    d, rules = cfg
+    ds = (d or {}).get("summary") or dict(max_age=0, age_buckets=0)
+    best = 10**12
+    def dur(ma, ab):
+        ma = ma if ma > 0 else 600 * 10**9
+        return ma // (ab or 5)
+    best = min(best, dur(ds["max_age"], ds["age_buckets"]))
+    for r in rules:
+        s_ = r.get("summary")
+        if not s_:
+            continue
+        typed = (r.get("observer_type") or r.get("timer_type") or (d or {}).get("observer_type") or (d or {}).get("timer_type")) is not None
+        if typed:
+            best = min(best, dur(s_["max_age"] or ds["max_age"], s_["age_buckets"] or ds["age_buckets"]))
+        else:
+            best = min(best, dur(s_["max_age"], s_["age_buckets"]))
+    return best
+
+
 def battery(cfg):
     out = []
     for r in cfg[1]:
@@ -90,13 +116,15 @@ def gen_case(rnd):
     for l in lines[:60]:
         ops.append(PE.I(l))
     ops += ["G", "A 700000000000", "S", "G"]
-    return (15, ("none", 0), ops, dict(expected=expected, yaml=GM.to_yaml(cfg), tiny_stream=tiny_stream(cfg)))
+    return (15, ("none", 0), ops, dict(expected=expected, yaml=GM.to_yaml(cfg), tiny_stream=tiny_stream(cfg), min_stream_ns=min_stream_ns(cfg)))
 
 
 def monitor(rep, case, impl, model, payload):
     fl, cache, ops, meta = case
     loaded = impl[0] == "L ok"
-    if meta and meta["expected"] != "ok" and loaded:
+    if meta and meta["expected"] is None:
+        pass            # whether it loads is the model's call (compared by the engine); what loads must run
+    elif meta and meta["expected"] != "ok" and loaded:
         rep.violation("an invalid configuration (%s) was accepted" % meta["expected"], dict(payload, yaml=meta["yaml"])); return
     if meta and meta["expected"] == "ok" and not loaded and impl[0] not in ("L EBadBuckets", "L EBadSummary", "L ESummWithHistOpts", "L EHistWithSummaryOpts"):
         # generated "boundary" configs may legitimately be rejected: by the bucket/quantile validation, or because options of one
@@ -112,14 +140,31 @@ def monitor(rep, case, impl, model, payload):
             rep.violation("a configuration that loaded makes scrapes fail", dict(payload, yaml=meta and meta["yaml"], op_index=k, impl=i[:300])); return
 
 
+def summary_cross(rnd, tier):
+    """summary options of a rule and of the defaults in every combination (which of them supplies max_age and which age_buckets
+    differs between a rule that names its observer type and one that does not): whatever loads must run"""
+    out = []
+    combos = [(m, ar, md, ad, ot) for m in (0, 100, 500, 10**6) for ar in (0, 3) for md in (0, 10**9) for ad in (0, 1000, 50000) for ot in (None, b"summary", b"histogram")]
+    if tier == "quick":
+        combos = rnd.sample(combos, 50) + [(500, 0, 0, 1000, None), (10**6, 0, 0, 50000, None)]
+    for m, ar, md, ad, ot in combos:
+        cfg = (GM.defaults(observer_type=ot, summary=GM.summ(max_age=md, age_buckets=ad)), [GM.rule(b"sx.*", b"sx", summary=GM.summ(max_age=m, age_buckets=ar), help=b"sx")])
+        ops = [GM.load_op(cfg), PE.I(b"sx.a:1|ms"), PE.I(b"sx.a:2|ms"), PE.I(b"sx.b:1|h|#k1:v"), PE.I(b"other:1|ms"), "G"]
+        out.append((15, ("none", 0), ops, dict(expected=None, yaml=GM.to_yaml(cfg), tiny_stream=tiny_stream(cfg), min_stream_ns=min_stream_ns(cfg))))
+    return out
+
+
 def run(rep, tier, seed, replay):
-    directed = [(15, ("none", 0), [GM.load_op((GM.defaults(summary=GM.summ(max_age=5)), [])), PE.I(b"t:1|ms"), "G"], dict(expected="ok", yaml="defaults: summary_options: max_age: 5ns", tiny_stream=True))]
+    import random as _random
+    directed = summary_cross(_random.Random(seed + 77), tier) + [(15, ("none", 0), [GM.load_op((GM.defaults(summary=GM.summ(max_age=5)), [])), PE.I(b"t:1|ms"), "G"], dict(expected="ok", yaml="defaults: summary_options: max_age: 5ns", tiny_stream=True))]
     res = PC.run(rep, "C19", tier, seed, replay, gen_case, monitor, 500, 25000,
            "%(n)d configurations: 35%% invalid (17 classes: syntax, match, name, label key, enum, regex, legacy/new contradictions, unsorted/duplicate buckets, quantile outside [0,1], "
            "negative max_age) and 65%% valid or boundary (empty/Inf/NaN/denormal buckets, quantiles 0 and 1, odd errors, reserved label names le/quantile/__x, huge/negative ttl, "
            "scale 0/negative/NaN/Inf, out-of-range template references), each followed by a battery of lines of every type hitting every rule, reserved tags, unmapped names, a scrape, "
            "an expiry sweep and a second scrape; non-trivial = configuration that loaded; distinct by YAML text",
-           extra_cases=directed, known_hang=lambda meta: KF_TINY if (meta or {}).get("tiny_stream") else None)
+           extra_cases=directed,
+           # in process only a stream duration of a few nanoseconds can make a scrape take seconds (cost = elapsed time / duration)
+           known_hang=lambda meta: KF_TINY if (meta or {}).get("min_stream_ns", 10**12) < 20 or ((meta or {}).get("tiny_stream") and "min_stream_ns" not in (meta or {})) else None)
     if not replay and res:
         cases, impl, model = res
         items = [(c[2][0].split()[1], i[0] == "L ok", (c[3] or {}).get("yaml", "")) for c, i in zip(cases, impl) if c[2] and c[2][0].startswith("L ")]
